@@ -301,6 +301,7 @@ func (s *supervisor) step(ev fsmEvent) {
 	if s.testHookAfterStateLoad != nil {
 		s.testHookAfterStateLoad(ev)
 	}
+	vgate("sup.step.loaded")
 
 	// NEW-2 (I3 supersession): evSelectLost is enqueued ONLY after CommitSelectLost has already CAS'd
 	// Selected -> NotSelected. If step now observes Selected, a concurrent CommitSelected (a peer that
